@@ -189,7 +189,12 @@ func storeOps(p *Program, fn *ssa.Function, memo map[*ssa.Function][]string, dep
 				case owner == "redis.Conn":
 					return nil // per-connection user data
 				}
-				return [][]string{{owner + "." + strings.TrimPrefix(n, "(*sync.Map).")}}
+				op := strings.TrimPrefix(n, "(*sync.Map).")
+				// optimistic update: the CAS compares with the value a Load of this map produced
+				if (op == "CompareAndDelete" || op == "CompareAndSwap") && len(cc.Args) >= 3 && casOldIsLoaded(p, x, cc.Args[2], 0) {
+					op += "(loaded)"
+				}
+				return [][]string{{owner + "." + op}}
 			}
 			if callee := staticCallee(cc); callee != nil && strings.HasPrefix(fnPkgPath(callee), pkgExSrv) {
 				var out [][]string
@@ -218,15 +223,60 @@ func storeOps(p *Program, fn *ssa.Function, memo map[*ssa.Function][]string, dep
 	sigs := map[string]bool{}
 	type edge struct{ a, b *ssa.BasicBlock }
 	count := 0
-	var walk func(b *ssa.BasicBlock, cur []string, used map[edge]bool)
-	walk = func(b *ssa.BasicBlock, cur []string, used map[edge]bool) {
+	// annotate a step with the lock acquisitions held when it executes: step@acq;acq
+	annotate := func(tok string, held []string, site string) string {
+		var acqs []string
+		if i := strings.Index(tok, "@"); i >= 0 {
+			// acquisitions made inside the callee: made distinct per call site
+			for _, a := range strings.Split(tok[i+1:], ";") {
+				acqs = append(acqs, a+"~"+site)
+			}
+			tok = tok[:i]
+		}
+		acqs = append(acqs, held...)
+		if len(acqs) == 0 {
+			return tok
+		}
+		sort.Strings(acqs)
+		return tok + "@" + strings.Join(acqs, ";")
+	}
+	var walk func(b *ssa.BasicBlock, cur []string, used map[edge]bool, held []string)
+	walk = func(b *ssa.BasicBlock, cur []string, used map[edge]bool, held []string) {
 		if count > 3000 {
 			return
 		}
 		curs := [][]string{cur}
 		for _, ins := range b.Instrs {
+			if call, ok := ins.(*ssa.Call); ok {
+				if name, kind := lockEvent(call.Common()); kind != "" {
+					switch kind {
+					case "lock", "rlock":
+						pre := "W:"
+						if kind == "rlock" {
+							pre = "R:"
+						}
+						held = append(append([]string{}, held...), pre+name+"#"+p.instrPos(call))
+					case "unlock", "runlock":
+						for i := len(held) - 1; i >= 0; i-- {
+							if strings.HasPrefix(held[i][2:], name+"#") {
+								held = append(append([]string{}, held[:i]...), held[i+1:]...)
+								break
+							}
+						}
+					}
+					continue
+				}
+			}
 			alts := tokOf(ins)
 			if len(alts) > 0 {
+				site := p.instrPos(ins)
+				for ai, alt := range alts {
+					na := make([]string, len(alt))
+					for k, t := range alt {
+						na[k] = annotate(t, held, site)
+					}
+					alts[ai] = na
+				}
 				var next [][]string
 				for _, c0 := range curs {
 					for _, alt := range alts {
@@ -257,12 +307,12 @@ func storeOps(p *Program, fn *ssa.Function, memo map[*ssa.Function][]string, dep
 			}
 			used[e] = true
 			for _, c0 := range curs {
-				walk(s, c0, used)
+				walk(s, c0, used, held)
 			}
 			delete(used, e)
 		}
 	}
-	walk(fn.Blocks[0], nil, map[edge]bool{})
+	walk(fn.Blocks[0], nil, map[edge]bool{}, nil)
 	var out []string
 	for s := range sigs {
 		out = append(out, s)
@@ -302,7 +352,7 @@ func ruleStoreAtomicity(c *Ctx) {
 	c.rule(rid, "example store: for every command handler method, every path signature (sequence of operations on the shared record map R / database map D and of mutations of record contents) with more than one such step must execute under a store-wide lock; single-step paths (one Load, one Store) are atomic by sync.Map")
 	memo := map[*ssa.Function][]string{}
 	hasLock := false
-	nh, nsig := 0, 0
+	nh, nsig, nLocked := 0, 0, 0
 	for _, fn := range c.P.RepoFuncs(pkgExSrv) {
 		allInstrs(fn, func(ins ssa.Instruction) {
 			if cc := callCommon(ins); cc != nil {
@@ -324,18 +374,81 @@ func ruleStoreAtomicity(c *Ctx) {
 		multi := map[string]bool{}
 		for _, sig := range storeOps(c.P, fn, memo, 0) {
 			var steps []string
+			var acqs []map[string]bool
 			if sig != "" {
 				for _, t := range strings.Split(sig, " ") {
-					if !strings.HasPrefix(t, "D.") {
-						steps = append(steps, t)
+					name, held := t, map[string]bool{}
+					if i := strings.Index(t, "@"); i >= 0 {
+						name = t[:i]
+						for _, a := range strings.Split(t[i+1:], ";") {
+							held[a] = true
+						}
 					}
+					if strings.HasPrefix(name, "D.") {
+						continue
+					}
+					// a mutation of state that is not the record store (statistics, counters) made
+					// under a write lock is a guarded step of its own, not part of the command's
+					// critical section over the store
+					if strings.HasPrefix(name, "mutate(") && !storeState(name) {
+						guarded := false
+						for a := range held {
+							if strings.HasPrefix(a, "W:") {
+								guarded = true
+							}
+						}
+						if guarded {
+							continue
+						}
+					}
+					if len(steps) > 0 && steps[len(steps)-1] == name {
+						// repeated step: both executions must be covered
+						for a := range acqs[len(acqs)-1] {
+							if !held[a] {
+								delete(acqs[len(acqs)-1], a)
+							}
+						}
+						continue
+					}
+					steps = append(steps, name)
+					acqs = append(acqs, held)
 				}
 			}
-			steps = collapse(steps)
-			if len(steps) < 2 {
+			if len(collapse(steps)) < 2 {
 				continue
 			}
-			multi["["+strings.Join(steps, " ")+"]"] = true
+			// load, then compare-and-delete/swap against what was loaded: linearizes at the CAS
+			if cs := collapse(steps); len(cs) == 2 && strings.HasSuffix(cs[0], ".Load") && strings.HasSuffix(cs[1], "(loaded)") && cs[0][:2] == cs[1][:2] {
+				nLocked++
+				continue
+			}
+			// one acquisition held over every step (a write lock as soon as a step writes)
+			writes := false
+			for _, st := range steps {
+				if strings.HasPrefix(st, "mutate(") || strings.HasSuffix(st, ".Store") || strings.HasSuffix(st, ".Delete") || strings.Contains(st, "Swap") || strings.Contains(st, "LoadOrStore") || strings.Contains(st, "LoadAndDelete") || strings.Contains(st, "CompareAnd") {
+					writes = true
+				}
+			}
+			atomic := false
+			for a := range acqs[0] {
+				if writes && !strings.HasPrefix(a, "W:") {
+					continue
+				}
+				all := true
+				for _, h := range acqs[1:] {
+					if !h[a] {
+						all = false
+					}
+				}
+				if all {
+					atomic = true
+				}
+			}
+			if atomic {
+				nLocked++
+				continue
+			}
+			multi["["+strings.Join(collapse(steps), " ")+"]"] = true
 		}
 		if len(multi) == 0 {
 			c.ok(rid, "ex."+fn.Name(), c.P.pos(fn.Pos()), "every path makes at most one step on shared store state")
@@ -343,14 +456,89 @@ func ruleStoreAtomicity(c *Ctx) {
 		}
 		nsig += len(multi)
 		key := fmt.Sprintf("ex.%s/%s", fn.Name(), strings.Join(sortedKeys(multi), ""))
-		if hasLock {
-			c.undecided(rid, key, c.P.pos(fn.Pos()), "the example store uses locks: lockset check for multi-step handler paths is not implemented")
-		} else {
-			c.bad(rid, key, c.P.pos(fn.Pos()), "multi-step path(s) on shared store state without any lock: concurrent clients can interleave between the steps (check-then-act, lost update, or a data race on record contents)")
-		}
+		_ = hasLock
+		c.bad(rid, key, c.P.pos(fn.Pos()), "multi-step path(s) on shared store state that no single lock acquisition covers from the first step to the last: concurrent clients can interleave between the steps (check-then-act, lost update, or a data race on record contents)")
 		// database creation: check-then-create
 	}
 	c.count("example-handlers", nh)
 	c.floor("example-handlers", 24)
 	c.count("multi-step-handler-paths", nsig)
+	c.count("multi-step-paths-under-one-lock", nLocked)
+}
+
+// storeState: the mutated field belongs to the record store (records and their containers).
+func storeState(step string) bool {
+	for _, t := range []string{"Record.", "Records.", "Database.", "Databases.", "List.", "Set.", "ZSet.", "ZSetMember.", "Hash.", "String."} {
+		if strings.HasPrefix(step, "mutate("+t) {
+			return true
+		}
+	}
+	return false
+}
+
+// casOldIsLoaded: the "old" operand of a CompareAndDelete/CompareAndSwap is a value obtained from
+// a Load of a sync.Map (directly, or through helpers: a parameter whose every caller passes such
+// a value; the result of a helper that loads).
+func casOldIsLoaded(p *Program, at ssa.Instruction, v ssa.Value, depth int) bool {
+	if depth > 3 {
+		return false
+	}
+	v = strip(v)
+	switch x := v.(type) {
+	case *ssa.Extract:
+		return casOldIsLoaded(p, at, x.Tuple, depth)
+	case *ssa.Call:
+		n := calleeName(x.Common())
+		if n == "(*sync.Map).Load" || n == "(*sync.Map).LoadOrStore" {
+			return true
+		}
+		if h := staticCallee(x.Common()); h != nil && h.Blocks != nil && inRepo(h) {
+			okAll, any := true, false
+			for _, r := range returnsOf(h) {
+				if len(r.Results) == 0 {
+					continue
+				}
+				res := strip(r.Results[0])
+				if c, isC := res.(*ssa.Const); isC && c.IsNil() {
+					continue
+				}
+				any = true
+				if !casOldIsLoaded(p, r, res, depth+1) {
+					okAll = false
+				}
+			}
+			return any && okAll
+		}
+	case *ssa.TypeAssert:
+		return casOldIsLoaded(p, at, x.X, depth)
+	case *ssa.Phi:
+		for _, e := range x.Edges {
+			if c, isC := e.(*ssa.Const); isC && c.IsNil() {
+				continue
+			}
+			if !casOldIsLoaded(p, at, e, depth+1) {
+				return false
+			}
+		}
+		return len(x.Edges) > 0
+	case *ssa.Parameter:
+		fn := x.Parent()
+		idx := -1
+		for i, q := range fn.Params {
+			if q == x {
+				idx = i
+			}
+		}
+		sites := p.staticCallSites(fn)
+		if len(sites) == 0 || idx < 0 {
+			return false
+		}
+		for _, s := range sites {
+			if idx >= len(s.Common().Args) || !casOldIsLoaded(p, s, s.Common().Args[idx], depth+1) {
+				return false
+			}
+		}
+		return true
+	}
+	return false
 }
